@@ -19,6 +19,8 @@ def main():
   for sid, (prop, pkg) in SEEDS.items():
     if only and sid not in only: continue
     d = "/verif/seeded/" + sid
+    if os.path.exists(d + "/NOT-PORTABLE.md"):
+        print(sid, "skipped: not portable to the current HEAD (validation.json keeps the result obtained on the tree it was written for)"); continue
     wt = "/tmp/sv_" + sid
     subprocess.run(["git", "-C", "/repo", "worktree", "remove", "--force", wt], stdout=subprocess.DEVNULL, stderr=subprocess.DEVNULL)
     subprocess.check_call(["git", "-C", "/repo", "worktree", "add", "-q", "--detach", wt, "HEAD"])
